@@ -108,7 +108,7 @@ def effort_exact(spec: Spec, vals: dict, obs: dict, info: dict) -> list[str]:
                 booked_sets.append((cand, ents))
         if not o["scheduled"]:
             continue
-        eff_s = val(t.effort, vals)
+        eff_s = spec.eval_effort(t.effort, vals)
         if eff_s <= 0:
             continue
         if len(booked_sets) != 1:
@@ -267,7 +267,7 @@ def no_idle_forward(spec: Spec, vals: dict, obs: dict, info: dict) -> list[str]:
             continue
         if any(res_by_leaf_id(spec, r).limits or _anc_limits(spec, r) for r in t.alloc) or _task_anc_limits(spec, t):
             continue
-        if val(t.effort, vals) <= 0:
+        if spec.eval_effort(t.effort, vals) <= 0:
             continue
         bound = dep_bound(spec, vals, obs, tid)
         if bound is None:
@@ -505,3 +505,25 @@ ORACLES = {
     "C05": limits_respected,
     "C11": total_ok,
 }
+
+
+# ---- C07 ------------------------------------------------------------------------------------
+
+def matches_reference(spec: Spec, vals: dict, obs: dict, info: dict) -> list[str]:
+    from .reference import reference_schedule
+
+    ref = reference_schedule(spec, vals, info)
+    fails: list[str] = []
+    for tid, r in ref.items():
+        o = obs["tasks"][tid]
+        if bool(o["scheduled"]) != bool(r["scheduled"]):
+            fails.append(f"C07 {tid}: scheduled={o['scheduled']} but the reference list scheduler says {r['scheduled']}")
+            continue
+        if not r["scheduled"]:
+            continue
+        if o["start"] != r["start"] or o["end"] != r["end"]:
+            fails.append(f"C07 {tid}: {o['start']}..{o['end']} but the reference list scheduler gives {r['start']}..{r['end']}")
+    return fails
+
+
+ORACLES["C07"] = matches_reference
